@@ -112,6 +112,9 @@ class HBMonitor:
             dbg = fn.dbg[pc] if 0 <= pc < len(fn.dbg) else None
             loc = ex.mod.loc(dbg) if dbg else None
             return '%s (%s:%s)' % (fn.name, loc[0].split('/')[-1] if loc and loc[0] else '?', loc[1] if loc else '?')
+        if ex.opts.get('hbdebug'):
+            import sys
+            sys.stderr.write('HBDEBUG cur=%d vc=%r other=%d shadow=%r\n' % (ex.st.cur, ex.st.hb.vc, ot, [(k, (v[0], v[1], [(r[0], r[1]) for r in v[3]])) for k, v in ex.st.hb.shadow.items() if k[0] == o.id and k[1] == w]))
         ex.violation('race', 'data-race',
                      'unsynchronised %s by thread %d at %s conflicts with %s by thread %d at %s on %s object %s word %d'
                      % ('write' if write else 'read', ex.st.cur, fmt(where),
@@ -220,12 +223,24 @@ def quiescence(ex):
     st = ex.st
     timed = [t for t in st.threads if t.status == 'blocked' and t.pred[2] >= 0]
     if timed:
-        timed.sort(key=lambda t: (t.pred[2], t.tid))
-        th = timed[0]
-        if ex.trace_on:
-            st.trace.append('timeout->T%d' % th.tid)
-        wake(ex, th, 0)
-        return switch_to(ex, th.tid)
+        # virtual time jumps to the earliest deadline; every wait that expires at that
+        # instant becomes runnable (their relative order is a scheduling choice)
+        dl = min(t.pred[2] for t in timed)
+        due = [t for t in timed if t.pred[2] == dl]
+        for th in due:
+            if ex.trace_on:
+                st.trace.append('timeout->T%d' % th.tid)
+            wake(ex, th, 0)
+        if len(due) > 1:
+            st.covers.add('sched:simultaneous-timeouts')
+            tids = [t.tid for t in due]
+
+            def apply(s, k):
+                s.cur = tids[k]
+            ex.choose_direct(len(tids), 's', apply)
+            ex.activate(ex.st)
+            return True
+        return switch_to(ex, due[0].tid)
     # true quiescence: run the harness's quiescence oracle on thread 0's context
     qf = ex.fns.get('sx_on_quiescent')
     st.covers.add('sched:quiescent')
@@ -376,12 +391,16 @@ def install(ex, reg):
     @reg('sx_hb_rel')
     def _hb_rel(ex, fr, a, d):
         st = ex.st
+        if st.hb is not None and ex.opts.get('hbdebug') == 2:
+            st.trace.append('hb:rel T%d key=%x clk=%r' % (st.cur, a[0], st.hb.vc[st.cur]))
         if st.hb is not None:
             st.hb.rel(st.cur, a[0])
 
     @reg('sx_hb_acq')
     def _hb_acq(ex, fr, a, d):
         st = ex.st
+        if st.hb is not None and ex.opts.get('hbdebug') == 2:
+            st.trace.append('hb:acq T%d key=%x sync=%r' % (st.cur, a[0], st.hb.sync.get(a[0])))
         if st.hb is not None:
             st.hb.acq(st.cur, a[0])
 
